@@ -58,6 +58,10 @@ func (h *zzUFHash) Sum(b []byte) []byte {
 	return append(b, verifUFBytes("transcript", 32, append([]byte{byte(len(h.written)), byte(len(h.written) >> 8)}, in...))...)
 }
 func (h *zzUFHash) Reset()         { h.written = nil }
+
+// binary marshalling, as cloneHash needs it
+func (h *zzUFHash) MarshalBinary() ([]byte, error) { return append([]byte{}, h.written...), nil }
+func (h *zzUFHash) UnmarshalBinary(b []byte) error { h.written = append([]byte{}, b...); return nil }
 func (h *zzUFHash) Size() int      { return 32 }
 func (h *zzUFHash) BlockSize() int { return 64 }
 
